@@ -669,6 +669,22 @@ class _MemPath(_Host):
             raise InterpRaise('FileNotFoundError')
         return _MemFile(_MemPath.FS, self.path, mode)
 
+    def stat(self):
+        # every file of this file system was written "within the same second": a size / time stamp pair does not identify contents
+        if self.path not in _MemPath.FS:
+            raise InterpRaise('FileNotFoundError')
+        st = _Host()
+        st.st_mtime = 1_700_000_000.25
+        st.st_mtime_ns = 1_700_000_000_250_000_000
+        st.st_size = len(_MemPath.FS[self.path].encode())
+        return st
+
+    def __str__(self):
+        return self.path
+
+    def __fspath__(self):
+        return self.path
+
 
 def fold_bench_round_trip(ck: Checker, R: str):
     """format_circuit then from_bench_string folded on model circuits built from the repository's own Gate class (C11):
@@ -720,6 +736,22 @@ def fold_bench_round_trip(ck: Checker, R: str):
                 except InterpRaise as e:
                     probs.append(f'the saved file is not readable ({e.exc_name}) for {desc}: {_MemPath.FS.get("dir/sub/c.bench")!r}'[:400])
                     continue
+                # the same path overwritten by another circuit whose text has the same length (two operands swapped) and loaded again
+                k_ = next((i for i, (l, t, ops) in enumerate(stored) if len(ops) == 2 and ops[0] != ops[1]), None)
+                if k_ is not None:
+                    stored2 = list(stored)
+                    stored2[k_] = (stored[k_][0], stored[k_][1], (stored[k_][2][1], stored[k_][2][0]))
+                    c2 = M.new_circuit(stored2, routs)
+                    _, err = M.call(c2, 'save_to_file', 'dir/sub/c.bench')
+                    it.steps = 0
+                    try:
+                        back2 = None if err else parse_file('dir/sub/c.bench')
+                    except InterpRaise as e:
+                        back2, err = None, e.exc_name
+                    if back2 is None:
+                        probs.append(f'saving / loading a second circuit under the same path raises {err} for {desc}')
+                    elif snap(back2) != snap(c2):
+                        probs.append(f'a file overwritten with another circuit of the same text length loads as the circuit saved before, for {desc}')
             else:
                 text, err = M.call(c, 'format_circuit')
                 if err:
@@ -731,6 +763,18 @@ def fold_bench_round_trip(ck: Checker, R: str):
                 except InterpRaise as e:
                     probs.append(f'the printed text is not readable ({e.exc_name}) for {desc}: {text!r}'[:400])
                     continue
+                if variant == 'plain':
+                    # comments and blank lines anywhere, whatever they contain, denote nothing
+                    lines = text.split('\n')
+                    mid = max(1, len(lines) // 2)
+                    noisy = '\n'.join(['# outputs (sum, carry', ''] + lines[:mid] + ['#:-( unbalanced ) ) (', '', '# INPUT(zzz) OUTPUT(zzz) q = AND(a, b'] + lines[mid:] + ['# the end ('])
+                    it.steps = 0
+                    try:
+                        nb = parse(noisy)
+                        if snap(nb) != snap(back):
+                            probs.append(f'the same text with comment and blank lines parses to another circuit ({snap(nb)[2]} outputs, {len(snap(nb)[0])} gates) for {desc}')
+                    except InterpRaise as e:
+                        probs.append(f'the same text with comment and blank lines is refused ({e.exc_name}) for {desc}')
             s0, s1 = snap(c), snap(back)
             if s0[1] != s1[1]:
                 probs.append(f'inputs read back as {s1[1]} instead of {s0[1]} for {desc}')
